@@ -702,6 +702,9 @@ def enc(x: str) -> str:
     """Encodes a string for SGML/XML/HTML"""
     if isinstance(x, bytes):
         return ""
+    if not isinstance(x, str):
+        # e.g. a font name that is not a name object
+        x = str(x)
     return escape(x)
 
 
